@@ -135,6 +135,7 @@ structure Sim where
   pool : List (Msg Val) := []
   nextW : Nat := 0
   changes : Nat := 0      -- number of store changes (for the tags)
+  forgedDiff : Bool := false   -- the replay stopped at a disagreement that follows a corrupted-but-decodable message
   silent : Nat := 0       -- visible value changed without a version bump (tombstone collection in a no-change merge)
 
 def Sim.node (s : Sim) (i : Nat) : Node Val := s.nodes.getD i {}
@@ -299,16 +300,29 @@ def step (s : Sim) (wl : WLast) (ev ob : String) : Sim × WLast × Option String
     else (s, wl, some "unknown-event")
   | _, _ => (s, wl, some "event-observation-shape")
 
+/-- does this event deliver content that no writer produced (a corrupted message that still decodes)? -/
+def forgedEvent (ev ob : String) : Bool :=
+  match ev.splitOn "!", ob.splitOn "!" with
+  | ["x", _, _, _, _], [_, cls, _, _, _] => cls == "ok"
+  | ["ppx", _, _, mode, _], [_, pairs, _, _] => mode != "trunc" && (pairs.splitOn "|").any (·.startsWith "ok:")
+  | _, _ => false
+
+/-- replay on the model. Content decoded from corrupted bytes is taken from the implementation's own
+decoder (key, codec, deleted flag, update time, value as the harness read them back with the same
+proto / codec calls); should the canonical line form still miss something of such a message, the
+history is correspondence-free from that event on (reported in the tags, never as a disagreement). -/
 def replay (conf : Conf) (evs obs : List String) : Sim × Option String := Id.run do
   let mut s : Sim := { conf := conf, nodes := List.replicate conf.n {} }
   let mut wl : WLast := []
   let mut i := 0
+  let mut forged := false
   for (ev, ob) in evs.zip obs do
+    if forgedEvent ev ob then forged := true
     let (s', wl', d) := step s wl ev ob
     s := s'
     wl := wl'
     match d with
-    | some d => return (s, some s!"ev#{i}:{ev} model={d}")
+    | some d => if forged then return ({ s with forgedDiff := true }, none) else return (s, some s!"ev#{i}:{ev} model={d}")
     | none => pure ()
     i := i + 1
   return (s, none)
@@ -463,7 +477,7 @@ def handleRun (f : List String) : String × String × String :=
     if evs.length != obs.length then ("event-observation-count", "-", "-") else
     let (s, d) := replay conf evs obs
     let j := judge conf evs obs
-    let tags := s!"n={conf.n} ev={bucket (evs.length / 4)} chg={bucket s.changes} cas={bucket (countEv evs "cas")} d={bucket (countEv evs "d!")} x={bucket (countEv evs "x!" + countEv evs "ppx!")} pp={bucket (countEv evs "pp!")} w={bucket s.nextW} rs={bucket (countEv evs "rs!")} lit={conf.lit} ni={bit conf.ni} clash={bit conf.clash} gc={bit conf.gc} skew={bit conf.skew} del={bit conf.del} silent={bucket s.silent}"
+    let tags := s!"n={conf.n} ev={bucket (evs.length / 4)} chg={bucket s.changes} cas={bucket (countEv evs "cas")} d={bucket (countEv evs "d!")} x={bucket (countEv evs "x!" + countEv evs "ppx!")} pp={bucket (countEv evs "pp!")} w={bucket s.nextW} rs={bucket (countEv evs "rs!")} lit={conf.lit} ni={bit conf.ni} clash={bit conf.clash} gc={bit conf.gc} skew={bit conf.skew} del={bit conf.del} silent={bucket s.silent} forgeddiff={bit s.forgedDiff}"
     (d.getD "-", if j.isEmpty then "-" else ",".intercalate j, tags)
   | _ => ("bad-fields", "-", "-")
 
